@@ -93,10 +93,7 @@ impl World for SeqVsPar {
             if par.max_inflight >= 2 {
                 bump(&mut out.counters, "probe:runs with >= 2 objective calls in flight", 1);
             }
-            let cur = out.counters.get("max objective calls in flight").copied().unwrap_or(0);
-            if par.max_inflight as u64 > cur {
-                out.counters.insert("max objective calls in flight".into(), par.max_inflight as u64);
-            }
+            bump(&mut out.counters, "max:objective calls in flight at once", par.max_inflight as u64);
             let mut fp = Fp::new();
             fp.u64(seq.fingerprint);
             fp.u64(hash);
